@@ -15,12 +15,37 @@ import (
 // ReadPacket reads one packet from the reader. Returns a io.EOF or
 // Malformed error on failure.
 func ReadPacket(r io.Reader) (ControlPacket, error) {
+	// io.ReadFull drops an error that arrives together with the last
+	// byte it asked for, keep it for the next read of this packet
+	r = &heldError{r: r}
 	var fh fixedHeader
 	if _, err := fh.ReadFrom(r); err != nil {
 		return nil, fmt.Errorf("ReadPacket: %w", err)
 	}
 
 	return fh.ReadRemaining(r)
+}
+
+// heldError delivers data first and an error that came with it on the
+// following call, as a reader is allowed to return both at once but
+// not obliged to repeat the error.
+type heldError struct {
+	r   io.Reader
+	err error
+}
+
+func (h *heldError) Read(p []byte) (int, error) {
+	if h.err != nil {
+		err := h.err
+		h.err = nil
+		return 0, err
+	}
+	n, err := h.r.Read(p)
+	if n > 0 && err != nil {
+		h.err = err
+		return n, nil
+	}
+	return n, err
 }
 
 // Dump writes all packet fields to the given writer, including empty
